@@ -254,6 +254,7 @@ def showProjectErr : Project.PErr → String
   | .incl k i => "err include " ++ showIncFault k ++ " " ++ toString i
   | .unknownDirective i => "err assemble unknownDirective " ++ toString i
   | .notAllowed i => "err assemble notAllowed " ++ toString i
+  | .jsightNotFirst i => "err assemble jsightNotFirst " ++ toString i
   | .noDirective i => "err assemble noDirective " ++ toString i
   | .param (.alreadyDefined _) i => "err assemble paramDefined " ++ toString i
   | .param .incorrect i => "err assemble paramIncorrect " ++ toString i
